@@ -773,12 +773,13 @@ COMMON_METHODS = ['GET', 'HEAD', 'POST', 'PUT', 'PATCH', 'DELETE', 'OPTIONS']
 RARE_METHODS = ['TRACE', 'CONNECT', 'PROPFIND', 'MKCOL', 'VERSION-CONTROL', 'REPORT']
 
 _PCHARS = "abcxyzABZ019-._~!$&'()*+,;=:@"
-_path_piece = st.one_of(
-    st.text(alphabet=_PCHARS, min_size=0, max_size=5),
-    st.sampled_from(['%C3%A9', '%E2%82%AC', '%F0%9F%98%80', '%c3%a9', 'caf%C3%A9', '%C3', '%A9', '%E2%82', '%FF', '%C0%AF',
-                     '%ED%A0%80', '%00', '%2F', '%2f', 'a%2Fb', '%25', '%2525', '%20', '%3F', '%23', '%', '%4', '%zz', '%G1',
-                     '%%', '+', '.', '..', '%2E%2E', '%7e', '%41']),
-    st.binary(min_size=1, max_size=3).map(lambda b: ''.join('%%%02X' % c for c in b)),
+_path_piece = g.weighted(
+    (5, st.text(alphabet=_PCHARS, min_size=0, max_size=5)),
+    (3, st.sampled_from(['%C3%A9', '%E2%82%AC', '%F0%9F%98%80', '%c3%a9', 'caf%C3%A9', '%C3%A9%E2%82%AC', '%D0%B6', '%EF%BF%BD'])),
+    (2, st.sampled_from(['%C3', '%A9', '%E2%82', '%FF', '%C0%AF', '%ED%A0%80', '%F4%90%80%80', '%80', 'a%C3b'])),
+    (3, st.sampled_from(['%00', '%2F', '%2f', 'a%2Fb', '%25', '%2525', '%20', '%3F', '%23', '%', '%4', '%zz', '%G1', '%%', '+',
+                         '.', '..', '%2E%2E', '%7e', '%41'])),
+    (1, st.binary(min_size=1, max_size=3).map(lambda b: ''.join('%%%02X' % c for c in b))),
 )
 _segment = st.lists(_path_piece, min_size=0, max_size=3).map(''.join)
 _free_path = st.builds(lambda segs, tr: '/' + '/'.join(segs) + ('/' if tr and segs else ''),
